@@ -104,6 +104,27 @@ Proof. induction vs as [|[ot ks] rest IH]; intros last t res F; cbn; [reflexivit
 Lemma keys_after_all vs t : Forall (fun p => fst p <= t) (eff vs 0) -> valid_keys_at vs t = last_keys vs.
 Proof. intros F. unfold valid_keys_at, last_keys. now apply vk_go_all_le. Qed.
 
+(* ---- later versions do not reach back ----
+   A version created after a commit was written must not change which keys were in force at that commit's time:
+   it has to carry a time strictly greater (Identity.Mutate gives it the clock's next value). *)
+Definition lastref (vs : list version) (last : N) : N :=
+  fold_left (fun l v => match fst v with Some x => x | None => l end) vs last.
+
+Lemma vk_go_all_later more last t res : (forall p, In p (eff more last) -> t < fst p) -> vk_go more last t res = res.
+Proof. destruct more as [|[ot ks] rest]; intros H; cbn; [reflexivity|].
+  assert (N.ltb t (match ot with Some x => x | None => last end) = true) as ->; [|reflexivity].
+  apply N.ltb_lt. apply (H (match ot with Some x => x | None => last end, ks)). cbn. left; reflexivity. Qed.
+
+Lemma vk_go_later vs more t : forall last res, (forall p, In p (eff more (lastref vs last)) -> t < fst p) ->
+  vk_go (vs ++ more) last t res = vk_go vs last t res.
+Proof. induction vs as [|[ot ks] rest IH]; intros last res H; cbn.
+  - apply vk_go_all_later. exact H.
+  - destruct (N.ltb t _); [reflexivity|]. apply IH. exact H. Qed.
+
+Theorem later_versions_do_not_reach_back vs more t : (forall p, In p (eff more (lastref vs 0)) -> t < fst p) ->
+  valid_keys_at (vs ++ more) t = valid_keys_at vs t.
+Proof. intros H. unfold valid_keys_at. apply vk_go_later. exact H. Qed.
+
 (* acceptance rule of readOperationPack, with OpenPGP as an oracle *)
 Variable sig payload : Type.
 Variable sig_ok : key -> payload -> sig -> bool.
@@ -174,6 +195,13 @@ Proof. intros F W. unfold write, signing_key in W. destruct (find have (last_key
 Theorem C08_pinned_writer_unreadable vs t have p : valid_keys_at vs t <> [] -> signing_key have vs = None ->
   exists s, write_pinned vs have p = Some s /\ accept vs t p s = false.
 Proof. intros NE Sk. exists None. unfold write_pinned. rewrite Sk. split; [reflexivity|now apply C08_reject_unsigned]. Qed.
+(* what the writer stored stays readable whatever versions its author adds afterwards, provided they take a
+   time after the commit's *)
+Theorem C08_written_stays_accepted vs more t have p s : Forall (fun q => fst q <= t) (eff vs 0) ->
+  (forall q, In q (eff more (lastref vs 0)) -> t < fst q) ->
+  write vs t have p = Some s -> accept (vs ++ more) t p s = true.
+Proof. intros F L W. unfold accept. rewrite (later_versions_do_not_reach_back vs more t L).
+  exact (C08_written_accepted vs t have p s F W). Qed.
 End Sig.
 Print Assumptions C08_keys_interval.
 Print Assumptions C08_reject.
@@ -187,6 +215,7 @@ Arguments signing_key {key}.
 Arguments accept {key sig payload}.
 Arguments write {key sig payload}.
 Arguments write_pinned {key sig payload}.
+Arguments lastref {key}.
 
 (* an ideal signature scheme (a signature names its key and its payload): shows the hypotheses on the oracle are
    satisfiable (P_C08.v) and instantiates the model in the correspondence check (K_C08.v) *)
@@ -195,3 +224,10 @@ Definition ideal_sign (k p : N) : N * N := (k, p).
 
 (* example history used in P_C08.v *)
 Definition ex_history : list (version N) := [(None, []); (Some 3, [1]); (Some 5, [2]); (Some 7, [])].
+
+(* a version that takes the SAME time as a commit written before it (the pinned Identity.Mutate recorded the
+   clock's current value, which is the time of the last commit written) does reach back: the author's own last
+   commit, rightly unsigned, now needs a signature *)
+Lemma same_time_version_reaches_back : exists (vs : list (version N)) v t,
+  fst v = Some t /\ valid_keys_at vs t = [] /\ valid_keys_at (vs ++ [v]) t <> [].
+Proof. exists [(Some 1, [])], (Some 3, [7]), 3. split; [reflexivity|]. split; [reflexivity|]. vm_compute. discriminate. Qed.
